@@ -62,8 +62,7 @@ func (p *Pubrel) Pack(w io.Writer) error {
 
 // Unpack read the packet bytes from io.Reader and decodes it into the packet struct.
 func (p *Pubrel) Unpack(r io.Reader) error {
-	restBuffer := make([]byte, p.FixHeader.RemainLength)
-	_, err := io.ReadFull(r, restBuffer)
+	restBuffer, err := readRemaining(r, p.FixHeader.RemainLength)
 	if err != nil {
 		return codes.ErrMalformed
 	}
